@@ -748,6 +748,9 @@ func (db *DB) execInsert(s insertStmt, args []any) (*Result, *Error) {
 	} else if cols, err = t.colList(s.cols); err != nil {
 		return nil, err
 	}
+	if s.cols != nil && len(s.cols) == 0 {
+		cols = nil // INSERT ... DEFAULT VALUES
+	}
 	if len(s.values) != len(cols) {
 		if len(s.values) > len(cols) {
 			return nil, errf("params", "INSERT has more expressions than target columns")
